@@ -1,3 +1,5 @@
 pub mod fops;
 pub mod mmap;
 pub mod seq;
+#[cfg(feature = "verif")]
+pub mod verif;
